@@ -13,8 +13,8 @@ from common import enc
 CALLBACKS = ["on_any_event", "on_moved", "on_created", "on_deleted", "on_modified", "on_closed",
              "on_closed_no_write", "on_opened"]
 
-PATHS = ["a.py", "A.PY", "d/a.py", "b.txt", "d", ""]
-PATTERNS = ["*.py", "*.PY", "*", "a.*", "d/*", "*.txt", "**"]
+PATHS = ["a.py", "A.PY", "d/a.py", "b.txt", "d", "", "d/Maße.py"]      # ß: lower() keeps it, casefold() expands it
+PATTERNS = ["*.py", "*.PY", "*", "a.*", "d/*", "*.txt", "**", "*/maße.*"]
 REGEXES = [".*", "^$", r".*\.py", "a", "$", "d/.*", "B", r".*\.txt$"]
 
 
@@ -166,7 +166,7 @@ def run(res, tier, lean, proof_breaks=(), build_log=""):
         meta.append(("regex", c, src, dest, inc, exc, cs, ign, as_bytes))
 
     # filter_paths / match_any_paths
-    plists = [[], ["a.py"], ["a.py", "b.txt", "A.PY"], ["d/a.py", "d", "a.py", "a.py"], ["b.txt", "d"]]
+    plists = [[], ["a.py"], ["a.py", "b.txt", "A.PY"], ["d/a.py", "d", "a.py", "a.py"], ["b.txt", "d"], ["d/Maße.py", "d/MASSE.py", "a.py"]]
     combos = list(itertools.product(plists, incs, excs, [False, True]))
     for paths, inc, exc, cs in combos:
         low, m = pat_tables(paths, inc, exc, cs)
